@@ -35,6 +35,8 @@ def job(args):
     from sa.src import Source
     root, overlay, chunk, base = args
     th = trav.TH(Source(root, overlay))
+    th.h.sym["ClassTagVert"].dict["tag"] = Tok(1, "class-level-equal")
+    th.h.w.snapshot()
     recs, n = [], 0
     k = base
     for inner, nbmap in chunk:
@@ -44,11 +46,18 @@ def job(args):
                 k += 1
                 vcls = "SymFalsyVert" if k % 2 else "Vertex"
                 none_mode = k % 5 == 0   # the sought value is None: a vertex lacking the attribute is still no match
-                attrs = {v: ({ATTR: (None if none_mode else Tok(1, "stored-equal"))} if p == "M" else ({ATTR: Tok(2, "stored-other")} if p == "N" else {})) for v, p in pat.items()}
-                sought = None if none_mode else Tok(1, "sought")
+                xtype_mode = k % 7 == 3  # stored 1 (int), sought 1.0 (float): equal (==) values of different types match
+                classattr_mode = k % 11 == 4 and not none_mode and not xtype_mode   # the matching value is a class-level attribute
+                stored = None if none_mode else (1 if xtype_mode else Tok(1, "stored-equal"))
+                attrs = {v: ({ATTR: stored} if p == "M" else ({ATTR: Tok(2, "stored-other")} if p == "N" else {})) for v, p in pat.items()}
+                sought = None if none_mode else (1.0 if xtype_mode else Tok(1, "sought"))
+                if classattr_mode:
+                    vcls = "ClassTagVert"
+                    pat = {v: ("N" if p == "L" else p) for v, p in pat.items()}
+                    attrs = {v: ({} if p == "M" else {ATTR: Tok(2, "stored-other")}) for v, p in pat.items()}
                 for tname, (mod, lst, gen, srch) in trav.TRAVS.items():
                     n += 1
-                    rec = dict(map={v: list(l) for v, l in nbmap.items()}, universe=members, trav=tname, search=srch, pattern=pat, vcls=vcls, sought_none=none_mode)
+                    rec = dict(map={v: list(l) for v, l in nbmap.items()}, universe=members, trav=tname, search=srch, pattern=pat, vcls=vcls, sought_none=none_mode, mode=("sought-None" if none_mode else ("int-vs-float" if xtype_mode else ("class-level-attribute" if classattr_mode else "token"))))
                     try:
                         if tname not in listings:
                             V = th.setup(nbmap, members, "Vertex", None)
@@ -116,7 +125,7 @@ def run(ctx):
         what = {"first-match": f"returns {r['got']} but the first match of {r['trav']}'s listing {r.get('listing')} is {r.get('want')}",
                 "settings": f"calls {r['got']} instead of the traversal's default settings", "nonterm": "does not terminate"}[r["kind"]]
         res.violation("FIRST-MATCH" if r["kind"] != "settings" else "SEARCH-SETTINGS", f"{mod}.{r['search']}",
-                      f"vertex-class={r['vcls']},universe={'given' if r['universe'] else 'None'},match-at-start={r['pattern'].get('a') == 'M'},sought-None={r.get('sought_none', False)}",
+                      f"vertex-class={r['vcls']},universe={'given' if r['universe'] else 'None'},match-at-start={r['pattern'].get('a') == 'M'},values={r.get('mode', 'token')}",
                       f"{r['search']} on neighbour map {r['map']} universe {r['universe']} attribute pattern {r['pattern']} ({r['vcls']}): {what}", replay=replay(r))
     res.rule("FIRST-MATCH", n)
     opt_rule(ctx, res)
